@@ -225,8 +225,8 @@ func classify(cs fmttie.Case, m1, m2 string, reasons []string, reread string) (s
 // the block's text AS IT WAS READ ends in a `//` line, two otherwise; what is written is the gofmt'd text.  gofmt moves
 // an indented `// c` on the last line to column 0.  Before 48881af the test was HasPrefix(lastLine, "//"), so the text
 // read back ended in a `//` line where the text that was read did not, and the second pass took out the blank line the
-// first one had written (found by the blocks family; fixed: the last line is trimmed of blanks and tabs first, and
-// model/Fmt.v ends_with_comment follows).  The shape is decided on the texts alone, independently of the model, so that
+// first one had written (found by the blocks family; fixed: the last line is trimmed of blanks and tabs first, since
+// 0276e15 of carriage returns too - white space to gofmt - and model/Fmt.v ends_with_comment follows).  The shape is decided on the texts alone, independently of the model, so that
 // a re-introduction is reported under it: a SITE is a Go block directly before a templ whose last line begins with `//`
 // at column 0 only before, or only after, gofmt; the input has the shape when its first pass holds, at a site, the
 // separator that goes with the text as read and its second pass holds the other one.
@@ -242,14 +242,16 @@ func lastLine(s string) string {
 	return ls[len(ls)-1]
 }
 
-// the test of the code before 48881af, and the test of the code as it is (= model/Fmt.v ends_with_comment)
-func commentAtColumn0(s string) bool     { return strings.HasPrefix(lastLine(s), "//") }
+// the test of the code before 48881af, between 48881af and 0276e15, and as it is (= model/Fmt.v ends_with_comment)
+func commentAtColumn0(s string) bool    { return strings.HasPrefix(lastLine(s), "//") }
 func commentBehindBlanks(s string) bool { return strings.HasPrefix(strings.TrimLeft(lastLine(s), " \t"), "//") }
+func commentInForce(s string) bool      { return strings.HasPrefix(strings.TrimLeft(lastLine(s), " \t\r"), "//") }
 
-// goCommentSites: the Go blocks directly before a templ for which the criterion gives another answer on the written text
-// than on the text read.  reintro: sites of the repaired defect (the old criterion differs, the one in force does not);
-// residual: sites where the criterion in force still differs, with the shape they are reported under.
-func goCommentSites(tf parser.TemplateFile) (reintro, residual []goCommentSite, residualShape string) {
+// goCommentSites: the Go blocks directly before a templ for which a criterion gives another answer on the written text
+// than on the text read.  repaired[shape]: sites of a repaired defect (an older criterion differs, the one in force does
+// not) under the shape of that defect; residual: sites where the criterion in force still differs.
+func goCommentSites(tf parser.TemplateFile) (repaired map[string][]goCommentSite, residual []goCommentSite, residualShape string) {
+	repaired = map[string][]goCommentSite{}
 	for i := 0; i+1 < len(tf.Nodes); i++ {
 		g, ok := tf.Nodes[i].(parser.TemplateFileGoExpression)
 		if !ok {
@@ -265,17 +267,14 @@ func goCommentSites(tf parser.TemplateFile) (reintro, residual []goCommentSite, 
 		}
 		// the parser reads the written text back without the white space at its end
 		w := strings.TrimRight(string(data), " \t\r\n")
-		if was, now := commentBehindBlanks(raw), commentBehindBlanks(w); was != now {
+		if was, now := commentInForce(raw), commentInForce(w); was != now {
 			residual = append(residual, goCommentSite{written: string(data), was: was, now: now})
-			if residualShape == "" {
-				residualShape = goCommentShape + ":Other"
-				// a carriage return in front of the comment: white space to gofmt, not to the test
-				if strings.HasPrefix(strings.TrimLeft(lastLine(raw), " \t\r"), "//") {
-					residualShape = goCommentShape + ":CarriageReturn"
-				}
-			}
+			residualShape = goCommentShape + ":Other"
+		} else if was, now := commentBehindBlanks(raw), commentBehindBlanks(w); was != now {
+			// a carriage return in front of the comment: white space to gofmt, not to the test before 0276e15
+			repaired[goCommentShape+":CarriageReturn"] = append(repaired[goCommentShape+":CarriageReturn"], goCommentSite{written: string(data), was: was, now: now})
 		} else if was, now := commentAtColumn0(raw), commentAtColumn0(w); was != now {
-			reintro = append(reintro, goCommentSite{written: string(data), was: was, now: now})
+			repaired[goCommentShape] = append(repaired[goCommentShape], goCommentSite{written: string(data), was: was, now: now})
 		}
 	}
 	return
@@ -410,9 +409,12 @@ func Run(c *core.Ctx) {
 			iff = false
 			c.Fail("tie", "unstable_reasons empty iff model predicts a fixed point", "", map[string]any{"file": cs.Name, "source": cs.Src, "reasons": reasons}, "reasons and predicted second pass disagree")
 		}
-		sites, residual, residualShape := goCommentSites(cs.TF)
-		if len(sites) > 0 {
+		repaired, residual, residualShape := goCommentSites(cs.TF)
+		if len(repaired[goCommentShape]) > 0 {
 			c.Hist("input with a Go block before a templ whose last line is an indented `//` comment (gofmt moves it to column 0)")
+		}
+		if len(repaired[goCommentShape+":CarriageReturn"]) > 0 {
+			c.Hist("input with a Go block before a templ whose last line is a `//` comment behind a carriage return (gofmt drops it)")
 		}
 		if len(residual) > 0 {
 			// the layout model keeps a Go block's text under reparse; at these places the text read back is another one, and
@@ -447,13 +449,17 @@ func Run(c *core.Ctx) {
 			nUnstable++
 			c.Hist(fams[i] + ": NOT stable after one pass")
 			shapes, predicted, detail := classify(cs, m1, m2, reasons, reread[i])
-			if len(sites) > 0 {
+			for _, gs := range []string{goCommentShape + ":CarriageReturn", goCommentShape} {
+				sites := repaired[gs]
+				if len(sites) == 0 {
+					continue
+				}
 				// the first pass holds the separator of the text as read at a site, the second pass does not
 				if adj := withGoCommentSeparators(cs.P1, sites); adj != cs.P1 && withGoCommentSeparators(cs.P2, sites) == cs.P2 {
 					if adj == cs.P2 {
-						shapes, predicted, detail = []string{goCommentShape}, false, map[string]string{} // the whole difference
+						shapes, predicted, detail = []string{gs}, false, map[string]string{} // the whole difference
 					} else {
-						shapes = append([]string{goCommentShape}, shapes...)
+						shapes = append([]string{gs}, shapes...)
 					}
 				}
 			}
